@@ -130,3 +130,31 @@ def import_graph(nfiles=3, slots=2, with_missing=False, with_wellknown=False):
     sc = Scenario('imports-%d-%d%s%s' % (nfiles, slots, '-missing' if with_missing else '', '-wk' if with_wellknown else ''),
                   files, start, sels)
     return sc, Info(schemas=schemas, names=names, edges=edges, start=start, opts=opts, nfiles=nfiles, slots=slots)
+
+
+# ------------------------------------------------------------------------------------------------ WSDL families
+
+NSW = 'http://example.com/orders/v1'
+
+
+def body_el(name, field='value', ftype='xs:string'):
+    return GEl(name, content=Seq([El(field, ftype)]))
+
+
+def wsdl_multi(nops=3, multipart=True):
+    """concrete WSDL: nops operations, the first one with a two-part input message and no parts= on soap:body"""
+    els = []
+    msgs = []
+    ops = []
+    for i in range(nops):
+        n = ['GetQuote', 'placeOrder', 'Cancel', 'Ping'][i]
+        els += [body_el(n + 'Request'), body_el(n + 'Response')]
+        parts = [('parameters', 'tns:%sRequest' % n)]
+        if i == 0 and multipart:
+            els.append(body_el('AuthHeader', 'token'))
+            parts = [('zparams', 'tns:%sRequest' % n), ('auth', 'tns:AuthHeader')]
+        msgs += [Msg(n + 'In', parts), Msg(n + 'Out', [('parameters', 'tns:%sResponse' % n)])]
+        ops.append(Op(n, 'tns:%sIn' % n, 'tns:%sOut' % n, action='http://example.com/orders/v1/' + n))
+    sch = Schema(NSW, els, prefixes={})
+    w = Wsdl(NSW, sch, msgs, ops)
+    return w
